@@ -20,6 +20,8 @@ become sticky; the weighted-graph engine's edge cache (F11) is covered by corres
 import OpenFGAVerif.Props.C01
 import OpenFGAVerif.Gen.CheckCache
 import OpenFGAVerif.Props.ReqClone
+import OpenFGAVerif.Props.ResolverKeys
+import OpenFGAVerif.Props.V2CacheGuards
 
 namespace OpenFGAVerif.C08
 open OpenFGAVerif.BoolSys OpenFGAVerif.Dfs OpenFGAVerif.CheckV1
